@@ -7,151 +7,7 @@ literal it is bound from.  The canonical name (the key) is only the handle the r
 T = "np\\.tile\\("
 
 ROLES = {
-    ("crystal/space_group.py", "SpaceGroup.apply_all_symops"): {
-        "nsites": r"^len\(\w+\)$",
-        "transformed": r"^np\.(empty|zeros)\(\(.*,\s*3\)",
-        "generator_symop": r"^np\.(empty|zeros)\((?!\().*int",
-        "unity": r"^0$",
-        "other_symops": r"symmetry_operations\[:.*\+.*symmetry_operations\[",
-        "symops": r"ordered_symmetry_operations\(\)",
-    },
-    ("crystal/crystal.py", "Crystal.unit_cell_atoms"): {
-        "pos": r"^self\.site_positions$",
-        "atoms": r"^self\.site_atoms$",
-        "natom": r"^self\.nsites$",
-        "nsymops": r"^len\(self\.space_group",
-        "occupation": r"^np\.tile\(.*occupation",
-        "labels": r"^np\.tile\(self\.asymmetric_unit\.labels",
-        "uc_nums": r"^np\.tile\((?!.*(labels|occupation|properties))",
-        "asym": r"np\.arange\(.*\)\s*%",
-        "sym": ("unpack", r"apply_all_symops\(", 0),
-        "uc_pos": ("unpack", r"apply_all_symops\(", 1),
-        "translated": [r"np\.fmod\(", r"np\.mod\(", r"%\s*1(\.0)?\b", r"np\.floor\("],
-        "tree": r"KDTree\(",
-        "dist": r"\.sparse_distance_matrix\(",
-        "mask": r"np\.ones\(.*dtype=bool",
-        "i": [("for", r"\.items\(\)|query_pairs\(", 0)],
-        "j": [("for", r"\.items\(\)|query_pairs\(", 1)],
-    },
-    ("crystal/space_group.py", "SpaceGroup.latt"): {
-        "inversion": r"identity\(\)\.inverted\(\)|from_integer_code\(",
-        "centering_to_latt": r"^\{.*'primitive'",
-    },
-    ("crystal/space_group.py", "SpaceGroup.__init__"): {
-        "sgdata": [r"^SG_FROM_NUMBER\["],
-        "symops": r"\.symops$",
-    },
-    ("crystal/space_group.py", "SpaceGroup.from_symmetry_operations"): {
-        "encoded": r"integer_code",
-        "sgdata": r"^SG_FROM_SYMOPS\[",
-    },
-    ("crystal/symmetry_operation.py", "expanded_symmetry_list"): {
-        "full_symops": [r"^\[\]$"],
-        "identity": r"^SymmetryOperation\.identity\(\)$",
-        "translations": r"^LATTICE_TYPE_TRANSLATIONS\[",
-        "lattice_type_value": r"^abs\(",
-    },
-    ("crystal/symmetry_operation.py", "reduced_symmetry_list"): {
-        "inversion": r"^\w+ > 0$",
-        "next_symop": r"\.pop\(0\)",
-        "reduced_symops": r"^\[SymmetryOperation\.identity\(\)\]$",
-        "symops_to_process": r"^list\(\w+\)$",
-        "translations": r"^LATTICE_TYPE_TRANSLATIONS\[",
-        "lattice_type_value": r"^abs\(",
-    },
-    **{("crystal/crystal.py", q): {
-        "slab": r"^self\.slab\(",
-        "tree": r"KDTree\(",
-        "positions": r"^\w+\['cart_pos'\]",
-        "elements": r"^\w+\['element'\]",
-        "asym": r"^\w+\['asym_atom'\]",
-        "keep": [r"^np\.zeros\(.*dtype=bool", r"^np\.where\("],
-        "idxs": r"query_ball_point\(",
-        "frac_radius": r"np\.linalg\.norm\(self\.unit_cell\.inverse",
-        "hklmax": r"^np\.array\(\[-np\.inf",
-        "hklmin": r"^np\.array\(\[np\.inf",
-        "this_mol": r"^\[\]$",
-        "result": r"^\{.*isinstance\(.*np\.ndarray\)",
-    } for q in ("Crystal.atoms_in_radius", "Crystal.atomic_surroundings", "Crystal.atom_group_surroundings", "Crystal.molecule_environment",
-                "Crystal.functional_group_surroundings")},
-    ("crystal/crystal.py", "Crystal.slab"): {
-        "uc_atoms": r"^self\.unit_cell_atoms\(\)$",
-        "h": ("nth", r"^np\.arange\(", 0),
-        "k": ("nth", r"^np\.arange\(", 1),
-        "l": ("nth", r"^np\.arange\(", 2),
-        "cells": r"cartesian_product\(",
-        "ncells": r"^len\(\w+\)$",
-        "uc_pos": r"\['frac_pos'\]$",
-        "n_uc": ("value_of", r"\['n_uc'\]"),
-        "pos": ("value_of", r"\['frac_pos'\]"),
-        "slab_cells": ("value_of", r"\['cell'\]"),
-        "slab_dict": r"^\{.*np\.tile\(",
-        "i": ("for", r"^enumerate\(", 0),
-        "cell": ("for", r"^enumerate\(", 1),
-    },
-    ("crystal/crystal.py", "Crystal.unit_cell_connectivity"): {
-        "slab": r"^self\.slab\(",
-        "n_uc": r"\['n_uc'\]$",
-        "uc_pos": r"\['frac_pos'\]\[:",
-        "uc_nums": r"\['element'\]\[:",
-        "neighbour_pos": r"\['frac_pos'\]\[\w+:\]",
-        "cart_uc_pos": ("nth", r"to_cartesian\(", 0),
-        "cart_neighbour_pos": ("nth", r"to_cartesian\(", 1),
-        "covalent_radii_dict": r"^\{.*\.cov\b",
-        "covalent_radii": r"^np\.array\(\[",
-        "max_cov": r"^np\.max\(",
-        "tree": ("nth", r"KDTree\(", 0),
-        "tree2": ("nth", r"KDTree\(", 1),
-        "dist": r"sparse_distance_matrix\(",
-        "uc_edges": r"^\[\]$",
-        "cells": r"\['cell'\]",
-        "uc_graph": r"dok_matrix\(",
-        "properties": r"^\{\}$",
-        "uc_idx": r"^\w+ % \w+$",
-        "cell": r"^\w+\[\w+\]$",
-    },
-    ("crystal/crystal.py", "Crystal.unit_cell_molecules"): {
-        "uc_graph": ("unpack", r"unit_cell_connectivity\(", 0),
-        "edge_cells": ("unpack", r"unit_cell_connectivity\(", 1),
-        "n_uc_mols": ("unpack", r"connected_components\(", 0),
-        "uc_mols": ("unpack", r"connected_components\(", 1),
-        "uc_dict": r"_unit_cell_atom_dict|unit_cell_atoms\(\)",
-        "uc_frac": r"\['frac_pos'\]$",
-        "uc_elements": r"\['element'\]$",
-        "uc_asym": r"\['asym_atom'\]$",
-        "uc_symop": r"\['symop'\]$",
-        "molecules": r"^\[\]$",
-        "n_uc": r"^len\(\w+\)$",
-        "nodes": r"^np\.where\(",
-        "root": r"^\w+\[0\]$",
-        "shifts": r"^np\.zeros\(\(\w+, 3\)\)",
-        "ordered": ("unpack", r"breadth_first_order\(", 0),
-        "pred": ("unpack", r"breadth_first_order\(", 1),
-        "reorder": r"^np\.argsort\(",
-        "mol": r"^Molecule\.from_arrays\(",
-        "centroid": r"\.center_of_mass$|\.centroid$",
-        "frac_centroid": r"^self\.to_fractional\(\w+\)$",
-        "new_centroid": r"np\.fmod\(|% 1|np\.floor\(",
-        "translation": r"^self\.to_cartesian\(\w+ - \w+\)$",
-        "positions": r"^self\.to_cartesian\(\(",
-        "j": ("for", r"\[1:\]$", None),
-    },
-    ("crystal/crystal.py", "Crystal.symmetry_unique_molecules"): {
-        "uc_molecules": r"^self\.unit_cell_molecules\(",
-        "molecules": r"^\[\]$",
-    },
     ("crystal/crystal.py", "Crystal.to_shelx_string"): {
-        "shelx_data": r"^\{.*'CELL':",
-    },
-    ("crystal/crystal.py", "Crystal.density"): {
-        "uc_vol": r"volume\(\)",
-    },
-    ("crystal/crystal.py", "Crystal.as_P1_supercell"): {
-        "sc": [r"^UnitCell\b", r"UnitCell"],
-        "sc_mols": r"^\[\]$",
-        "asym_pos": r"^np\.vstack\(",
-        "asym_nums": r"^np\.hstack\(",
-        "asymmetric_unit": r"^AsymmetricUnit\(",
-        "new_crystal": r"^Crystal\(",
+        "shelx_data": r"^\{.*'CELL':",          # the literal is too long for a generated shape
     },
 }
